@@ -105,6 +105,24 @@ def r_load_store(cg, rep):
             report(rep, 'R04.8', '%s:store:%s' % (U, cat), pack, checks, 'store of %s' % cat, where)
 
 
+def r_aggregate_value(cg, rep):
+    """an lvalue of array/struct/union/function/VLA type is represented by its address: evaluating it must not read through the address"""
+    where = '%s:%d' % (U, cg.cu.fn('load').line if cg.cu.fn('load') else 0)
+    for cat in ('array', 'struct', 'union', 'func', 'vla'):
+        def mk(ctx, cat=cat):
+            n = cg.node('node', 'ND_DEREF')
+            t = cg.tcell('ty', only=(cat,))
+            n.fields['ty'] = t
+            n.fields['lhs'] = cg.node('lhs', ty=cg.ptr_to(t, 'pty'))
+            return n
+        pack = run_paths(cg, 'gen_expr', mk)
+
+        def check(s, cat=cat):
+            return s.reg['rax'] == ('r', 'lhs', 64) and not s.stores, ('the value of an lvalue of %s type is %r: such an object is represented by its address, which must be passed on unchanged '
+                                                                       '(a load here reads the first bytes of the object and uses them as its address)' % (cat, s.reg['rax']))
+        report(rep, 'R04.8', '%s:load:%s-is-its-address' % (U, cat), pack, check, 'value of an lvalue of %s type' % cat, where)
+
+
 def bitfield_node(cg, cat, kind):
     def mk(ctx):
         t = cg.tcell('ty', only=(cat,))
@@ -260,29 +278,29 @@ def vkey_(v):
 
 
 def r_copy_loops(cg, rep):
-    rep.rule('R04.3', 'aggregate copies move byte i of the source to byte i of the destination for exactly i in [0, size)', floor=3)
+    rep.rule('R04.3', 'aggregate copies move byte i of the source to byte i of the destination for exactly i in [0, size)', floor=5)
     where = '%s:%d' % (U, cg.cu.fn('store').line if cg.cu.fn('store') else 0)
-    for size in (1, 3, 17):
-        def mk(ctx, size=size):
+    for cls, kname, size in (('struct', 'TY_STRUCT', 1), ('struct', 'TY_STRUCT', 3), ('struct', 'TY_STRUCT', 17), ('union', 'TY_UNION', 3), ('union', 'TY_UNION', 17)):
+        def mk(ctx, size=size, cls=cls, kname=kname):
             t = Obj('Type', lazy=True, label='sty')
-            t.meta['cat'] = 'struct'
-            t.fields.update({'kind': cg.E['TY_STRUCT'], 'size': size, 'align': 1, 'is_unsigned': 0, 'base': 0})
+            t.meta['cat'] = cls
+            t.fields.update({'kind': cg.E[kname], 'size': size, 'align': 1, 'is_unsigned': 0, 'base': 0})
             n = cg.node('node', 'ND_ASSIGN', ty=t)
             n.fields['lhs'] = cg.node('lhs', ty=t, kind='ND_VAR')
             n.fields['rhs'] = cg.node('rhs', ty=t)
             return n
         pack = run_paths(cg, 'gen_expr', mk)
 
-        def check(s, size=size):
+        def check(s, size=size, cls=cls):
             src = ('r', 'rhs', 64); dst = ('r', 'lhs&', 64)
             want = [(('addr', dst, i), 8, ('mem', 8, ('addr', src, i))) for i in range(size)]
             got = [(a, w, v) for (a, w, v, k) in s.stores]
-            return sorted(got, key=repr) == sorted(want, key=repr), 'a %d-byte aggregate assignment stores %d bytes %r' % (size, len(got), got[:4])
-        report(rep, 'R04.3', '%s:store:struct-copy/%d' % (U, size), pack, check, 'struct copy', where)
+            return sorted(got, key=repr) == sorted(want, key=repr), 'a %d-byte %s assignment stores %d bytes %r' % (size, cls, len(got), got[:4])
+        report(rep, 'R04.3', '%s:store:%s-copy/%d' % (U, cls, size), pack, check, '%s copy' % cls, where)
 
 
 def r_addr(cg, rep):
-    rep.rule('R04.4', 'gen_addr: a member is at base + member offset, *p is at the value of p, (a,b) at the address of b after evaluating a, aggregate-valued calls/assignments/conditionals at the address they yield; anything else is diagnosed', floor=5)
+    rep.rule('R04.4', 'gen_addr: a member is at base + member offset, *p is at the value of p, (a,b) at the address of b after evaluating a, aggregate-valued calls/assignments/conditionals at the address they yield; anything else is diagnosed', floor=9)
     where = '%s:%d' % (U, cg.cu.fn('gen_addr').line)
     # member
     def mk(ctx):
@@ -329,6 +347,24 @@ def r_addr(cg, rep):
     want = {'ND_VAR', 'ND_DEREF', 'ND_COMMA', 'ND_MEMBER', 'ND_FUNCALL', 'ND_ASSIGN', 'ND_COND', 'ND_VLA_PTR'}
     rep.ob('R04.4', '%s:gen_addr:kinds-with-an-address' % U, accepted == want,
            'gen_addr computes an address for %s; the kinds that denote objects are %s (others must be diagnosed as "not an lvalue")' % (sorted(accepted ^ want), sorted(want)), where=where)
+    # aggregate-valued assignments and conditionals denote the object they yield, whichever aggregate class it has
+    for kind in ('ND_ASSIGN', 'ND_COND'):
+        for cat in ('struct', 'union'):
+            def mka(ctx, kind=kind, cat=cat):
+                n = cg.node('node', kind)
+                n.fields['ty'] = cg.tcell('ty', only=(cat,))
+                return n
+            key = '%s:gen_addr:%s/%s-has-an-address' % (U, kind, cat)
+            try:
+                it, res = cg.explore('gen_addr', mka)
+            except AnalysisBroken as e:
+                rep.undecided('R04.4', key, 'not interpretable: %s' % e, where=where); continue
+            rets = [o for c, o in res if o[0] == 'ret']
+            diag = [o for c, o in res if o[0] == 'noreturn']
+            if not rets and not diag:
+                rep.undecided('R04.4', key, 'no path', where=where); continue
+            rep.ob('R04.4', key, bool(rets) and not diag, 'gen_addr of %s of %s type is diagnosed (%s) on %d of %d paths: `(a = b).m` / `(c ? a : b).m` designate a member of the yielded object for structs and unions alike'
+                   % (kind, cat, diag[0][1] if diag else '', len(diag), len(diag) + len(rets)), where=where)
     # every other kind is diagnosed
     def mkk(ctx):
         n = cg.node('node', 'ND_ADD')
@@ -423,7 +459,9 @@ def r_frame(cg, P, rep):
 
 def r_alloca(cg, rep, rule='R04.7'):
     """alloca lowering: size rounded up to 16, the temporaries between %rsp and the alloca bottom are moved down by exactly that
-    amount with a loop over the full 64-bit byte count, %rsp and the bottom pointer move by the same amount, the block address is returned"""
+    amount with a loop over the full 64-bit byte count, %rsp and the bottom pointer move by the same amount, the block address is returned.
+    Decided for EVERY compile-time path through builtin_alloca (a path that is selected by generator state such as `depth` gets its own
+    obligations, keyed by the decisions that select it)"""
     from ..chibi import Trace, linearise
     from ..x86 import Machine, norm_bin
     fnn = 'builtin_alloca'
@@ -438,45 +476,121 @@ def r_alloca(cg, rep, rule='R04.7'):
         ctx.globals['current_fn'] = fn
         return []
     res = [(c, o) for c, o in it.explore(fnn, mk) if o[0] == 'ret']
-    if len(res) != 1:
-        rep.undecided(rule, '%s:%s' % (U, fnn), '%d returning paths' % len(res), where=where); return
-    tr = Trace(res[0][0])
+    if not res:
+        rep.undecided(rule, '%s:%s' % (U, fnn), 'no returning path', where=where); return
+    if len(res) > 8:
+        rep.undecided(rule, '%s:%s' % (U, fnn), '%d returning paths (more than 8 compile-time variants of the lowering)' % len(res), where=where); return
+    tags = set()
+    for ctx, out in res:
+        if len(res) == 1:
+            tag = ''
+        else:
+            tag = '/when[%s]' % ' && '.join(str(t) for t in ctx.trail) if ctx.trail else '/when[]'
+            if tag in tags:
+                rep.undecided(rule, '%s:%s%s' % (U, fnn, tag), 'two returning paths are selected by the same decisions', where=where); continue
+            tags.add(tag)
+        _alloca_path(cg, rep, rule, fnn, where, ctx, tag)
+
+
+def _no_temporaries(ctx):
+    """the decisions of this compile-time path imply depth == 0 (the generator's count of pending pushes: no temporaries lie between
+    %rsp and the alloca bottom; framework contract proved by C18/C20 stack balance)"""
+    for k, v in ctx.bounds.items():
+        if k[0] == 'sym' and str(k[1]).rstrip('0123456789') == 'depth' and list(v) == [0, 0]:
+            return True
+    return False
+
+
+def _alloca_path(cg, rep, rule, fnn, where, ctx, tag):
+    from ..chibi import Trace, linearise
+    from ..x86 import Machine, norm_bin
+    K = '%s:%s%s' % (U, fnn, tag)
+    tr = Trace(ctx)
     nodes = linearise(tr)
     try:
         finals = Machine(raw_rsp=True).run(nodes, lambda s: None, lambda s, n: None, max_paths=16)
     except Unknown as e:
-        rep.undecided(rule, '%s:%s' % (U, fnn), 'emitted code not interpretable: %s' % e, where=where); return
-    facts = {'trace': tr.text()}
+        rep.undecided(rule, K, 'emitted code not interpretable: %s' % e, where=where); return
+    facts = {'trace': tr.text(), 'path': list(ctx.trail)}
     RSP0 = ('init', 'rsp'); ARG = ('init', 'rdi')
     BOT = ('mem', 64, ('addr', ('init', 'rbp'), '{aboff}'))
     size_t = ext('zx', 32, 64, norm_bin('and', 32, lo(32, norm_bin('add', 64, ARG, C(15))), C(0xfffffff0)))
     count0 = ('bin', 'sub', 64, BOT, RSP0)
+    newsp = norm_bin('sub', 64, RSP0, size_t)
+    newbot = [norm_bin('sub', 64, BOT, size_t)]
     # paths: 0 iterations, 1 iteration, (2 iterations)
     by_iter = {}
     for s in finals:
         n = sum(1 for e in s.events if e[0] == 'branch' and not e[2])
         by_iter[n] = s
-    rep.ob(rule, '%s:%s:loop-has-exit-and-body' % (U, fnn), 0 in by_iter and 1 in by_iter, 'the relocation loop does not have both a zero-iteration and a one-iteration path (%r)' % sorted(by_iter), where=where, facts=facts)
-    if 0 not in by_iter or 1 not in by_iter:
-        return
-    s0, s1 = by_iter[0], by_iter[1]
-    # exit condition: full-width zero test of the remaining count
-    c0 = canon([e for e in s0.events if e[0] == 'branch'][0][1])
-    ok = c0 in (canon(('cmp', 'eq', 64, count0, C(0))),)
-    rep.ob(rule, '%s:%s:loop-counts-all-bytes' % (U, fnn), ok,
-           'the loop that moves the pending temporaries stops when %r holds; it must run until the full 64-bit byte count (alloca bottom - %%rsp) is exhausted: with a narrower test, 256 or more bytes of temporaries are left behind' % (c0,), where=where, facts=facts)
-    br = [e for e in s1.events if e[0] == 'branch']
-    c1 = canon(br[1][1]) if len(br) > 1 else None
-    rep.ob(rule, '%s:%s:count-decrements-by-one' % (U, fnn), c1 == canon(('cmp', 'eq', 64, norm_bin('sub', 64, count0, C(1)), C(0))), 'after one byte the remaining count is tested as %r' % (c1,), where=where, facts=facts)
-    st = s1.stores
-    newsp = norm_bin('sub', 64, RSP0, size_t)
-    okc = len([x for x in st if x[1] == 8]) >= 1 and any(x[0] == ('addr', newsp, 0) and x[1] == 8 and x[2] == ('mem', 8, ('addr', RSP0, 0)) for x in st)
-    rep.ob(rule, '%s:%s:first-byte-moves-down-by-size' % (U, fnn), okc, 'the first pending byte is not copied from (%%rsp) to (%%rsp - rounded size): stores %r' % ([x[:3] for x in st][:3],), where=where, facts=facts)
+    straight = len(finals) == 1 and not any(e[0] == 'branch' for e in finals[0].events)
+    if straight and tag:
+        # a variant of the lowering without relocation loop: sound only where the generator knows that nothing is pending
+        empty = _no_temporaries(ctx)
+        rep.ob(rule, K + ':no-relocation-only-without-temporaries', empty,
+               'on the compile-time path %r the pending temporaries between %%rsp and the alloca bottom are not relocated although the path does not establish depth == 0' % (list(ctx.trail),), where=where, facts=facts)
+        if not empty:
+            return
+        s0 = finals[0]
+        newbot.append(newsp)          # bottom == %rsp when nothing is pending
+    else:
+        rep.ob(rule, K + ':loop-has-exit-and-body', 0 in by_iter and 1 in by_iter, 'the relocation loop does not have both a zero-iteration and a one-iteration path (%r)' % sorted(by_iter), where=where, facts=facts)
+        if 0 not in by_iter or 1 not in by_iter:
+            return
+        s0, s1 = by_iter[0], by_iter[1]
+        # exit condition: full-width zero test of the remaining count
+        c0 = canon([e for e in s0.events if e[0] == 'branch'][0][1])
+        ok = c0 in (canon(('cmp', 'eq', 64, count0, C(0))),)
+        rep.ob(rule, K + ':loop-counts-all-bytes', ok,
+               'the loop that moves the pending temporaries stops when %r holds; it must run until the full 64-bit byte count (alloca bottom - %%rsp) is exhausted: with a narrower test, 256 or more bytes of temporaries are left behind' % (c0,), where=where, facts=facts)
+        br = [e for e in s1.events if e[0] == 'branch']
+        c1 = canon(br[1][1]) if len(br) > 1 else None
+        rep.ob(rule, K + ':count-decrements-by-one', c1 == canon(('cmp', 'eq', 64, norm_bin('sub', 64, count0, C(1)), C(0))), 'after one byte the remaining count is tested as %r' % (c1,), where=where, facts=facts)
+        st = s1.stores
+        okc = len([x for x in st if x[1] == 8]) >= 1 and any(x[0] == ('addr', newsp, 0) and x[1] == 8 and x[2] == ('mem', 8, ('addr', RSP0, 0)) for x in st)
+        rep.ob(rule, K + ':first-byte-moves-down-by-size', okc, 'the first pending byte is not copied from (%%rsp) to (%%rsp - rounded size): stores %r' % ([x[:3] for x in st][:3],), where=where, facts=facts)
     ok_rsp = s0.reg['rsp'] == newsp
-    rep.ob(rule, '%s:%s:rsp-moves-by-rounded-size' % (U, fnn), ok_rsp, '%%rsp becomes %r, expected %%rsp - ((size + 15) & ~15)' % (s0.reg['rsp'],), where=where, facts=facts)
+    rep.ob(rule, K + ':rsp-moves-by-rounded-size', ok_rsp, '%%rsp becomes %r, expected %%rsp - ((size + 15) & ~15)' % (s0.reg['rsp'],), where=where, facts=facts)
     bs = [x for x in s0.stores if x[0] == ('addr', ('init', 'rbp'), '{aboff}')]
-    okb = len(bs) == 1 and bs[0][1] == 64 and bs[0][2] == norm_bin('sub', 64, BOT, size_t) and s0.reg['rax'] == bs[0][2]
-    rep.ob(rule, '%s:%s:bottom-moves-by-same-amount-and-is-returned' % (U, fnn), okb, 'the alloca bottom pointer is updated to %r and %%rax is %r; both must be bottom - rounded size (the address of the new block)' % ([x[2] for x in bs], s0.reg['rax']), where=where, facts=facts)
+    okb = len(bs) == 1 and bs[0][1] == 64 and bs[0][2] in newbot and s0.reg['rax'] in newbot
+    rep.ob(rule, K + ':bottom-moves-by-same-amount-and-is-returned', okb,
+           'the alloca bottom pointer is updated to %r and %%rax is %r; both must be bottom - rounded size (the address of the new block): '
+           'a later alloca()/VLA in the same function computes its block from the stale bottom and overlaps this one' % ([x[2] for x in bs], s0.reg['rax']), where=where, facts=facts)
+    other = [x for x in s0.stores if x[0] != ('addr', ('init', 'rbp'), '{aboff}')]
+    if straight and tag:
+        rep.ob(rule, K + ':no-other-stores', not other, 'the variant without relocation writes memory other than the bottom pointer: %r' % ([x[:3] for x in other][:3],), where=where, facts=facts)
+
+
+def r_alloca_bottom_init(cg, P, rep, rule='R04.7'):
+    """the relocation of R04.7 measures the temporaries as (alloca bottom - %rsp): the hidden bottom slot must start out as %rsp after the
+    frame has been allocated, i.e. exactly at the lowest byte of the frame (below every home), before the body runs"""
+    from ..lib_abi import Builder
+    from ..chibi import linearise
+    from ..x86 import Machine
+    from .c06 import run_callee
+    B = Builder(P)
+    where = '%s:%d' % (U, cg.cu.fn('emit_text').line if cg.cu.fn('emit_text') else 0)
+    for tag, params, locs in (('plain', ['int'], [(24, 8, False)]), ('stack-params', ['long'] * 7 + ['s_l3'], [(3, 1, True), (17, 1, True)])):
+        key = '%s:emit_text:alloca-bottom-starts-at-frame-bottom/%s' % (U, tag)
+        try:
+            box, offsets, stack_size, tr, s = run_callee(cg, B, params, extra_locals=locs)
+            nodes = linearise(tr)
+            cut = [i for i, n in enumerate(nodes) if n[0] == 'pseudo']
+            if not cut:
+                rep.undecided(rule, key, 'function body marker not found', where=where); continue
+            fin = Machine(raw_rsp=True).run(nodes[:cut[0]], lambda s: None, lambda s, n: None)
+        except Unknown as e:
+            rep.undecided(rule, key, str(e), where=where); continue
+        if len(fin) != 1:
+            rep.undecided(rule, key, '%d paths through the prologue' % len(fin), where=where); continue
+        f = fin[0]
+        off = box['ab'].fields.get('offset')
+        rbp = f.reg['rbp']
+        bs = [x for x in f.stores if x[0] == ('addr', rbp, off)]
+        frame_bottom = norm_bin('sub', 64, rbp, C(stack_size)) if isinstance(stack_size, int) else None
+        ok = len(bs) == 1 and bs[0][1] == 64 and bs[0][2] == f.reg['rsp'] and f.reg['rsp'] == frame_bottom
+        rep.ob(rule, key, ok, 'before the body runs the alloca bottom slot holds %r and %%rsp is %r; both must be %%rbp - frame size (%r): otherwise the first alloca()/VLA treats part of the frame as '
+               'temporaries (or misses some) and its block overlaps live objects' % ([x[2] for x in bs], f.reg['rsp'], frame_bottom), where=where, facts={'trace': tr.text()[:14]})
 
 
 def r_vla_size(P, rep):
@@ -580,15 +694,23 @@ def run(P, rep, tier):
                        'and masks are compared with the formulas C11/psABI prescribe. Member lookup is decided by interpretation of get_struct_member.')
     rep.assumptions += ['gen_addr of a child leaves its address in %rax (contract, proved per kind by R04.4)', 'host arithmetic on layout fields is tracked as 64-bit unless the C type of the expression is narrower']
     r_load_store(cg, rep)
+    r_aggregate_value(cg, rep)
     r_bitfield(cg, rep)
     r_copy_loops(cg, rep)
     r_addr(cg, rep)
     r_member_lookup(P, rep)
     r_frame(cg, P, rep)
-    rep.rule('R04.7', 'alloca: size rounded to 16, pending temporaries relocated byte for byte over the full count, %rsp and the bottom pointer move together, block address returned', floor=5)
+    rep.rule('R04.7', 'alloca: size rounded to 16, pending temporaries relocated byte for byte over the full count, %rsp and the bottom pointer move together, block address returned; the bottom pointer starts at the frame bottom', floor=7)
     r_alloca(cg, rep)
+    r_alloca_bottom_init(cg, P, rep)
     r_bitfield_unit(P, rep)
     r_vla_size(P, rep)
     from ..lib_types import r_pointer_scaling
     rep.rule('R04.10', 'element addresses: p+n / p[n] / p-n scale the index by the element size in 64-bit arithmetic (shared with R01.3)', floor=9)
     r_pointer_scaling(P, rep, 'R04.10')
+    from ..lib_c04 import r_vla_arith
+    rep.rule('R04.13', 'element addresses of variably modified types: p+n / n+p / p-n with p pointing to (or decaying to a pointer to) a variable-length row scale n by the hidden size variable of exactly that row type, never by the 8-byte placeholder size; a 1-D VLA steps by its constant element size; p-q divides the byte difference by the same factor', floor=20)
+    r_vla_arith(P, rep, 'R04.13')
+    from ..lib_c04 import r_zero_fill
+    rep.rule('R04.14', 'a block-scope object (declared local or compound literal) with an initializer is zero-filled as a whole before its assignment chain runs, for every class whose initializer can leave bytes unmentioned: array, struct and union', floor=6)
+    r_zero_fill(P, rep, 'R04.14')
